@@ -93,6 +93,8 @@ def make_config(seed, tier="quick"):
         # a first session that the peer drops; the judged session is the one after the reconnect (state left
         # behind by the first connection must not disturb the watchdog of the second)
         prelude_drop=prelude,
+        prelude_mode=random.Random(seed ^ 0xC1290).choice(["peer_drop", "peer_drop", "app_logout"]),
+        prelude_pause_s=random.Random(seed ^ 0xC1291).choice([0.4, 1.2, 2.3, 3.4]),
         prelude_after=round(r.uniform(0.05, 1.2) * hb, 3),
         prelude_reconnect=round(r.uniform(0.1, 3.0), 3),
         p_slow_close=r.choice([0.0, 0.5, 1.0]) if prelude else 0.0,
@@ -149,18 +151,28 @@ class WatchdogSim(PeerSim):
             self.peer.send("A", [("98", "0"), ("108", self.cfg["hb"])], spec={"stim": "logon"})
         if kind in ("eof", "lost") and self.prelude_state == "dropped" and self.eut_role == "acceptor":
             self.prelude_state = "reconnecting"
-            self.loop.call_later(self.cfg["prelude_reconnect"], self.peer_connect)
+            self.schedule_reconnect(self.cfg["prelude_reconnect"])
         elif kind in ("eof", "lost") and self.prelude_state == "reconnecting" and self.t0 is None \
-                and self.eut_role == "acceptor" and self.n_retries < 12 and not self._retry_pending:
+                and self.eut_role == "acceptor" and self.n_retries < 12:
             # the acceptor was still closing the old connection and turned the new one away: try again
-            self.n_retries += 1
-            self._retry_pending = True
-            self.loop.call_later(1.0, self._retry_connect)
+            # (one attempt at a time, like any sane client: EOF and connection-lost of one connection are one event)
+            if self.schedule_reconnect(1.0):
+                self.n_retries += 1
+
+    def schedule_reconnect(self, delay):
+        if self._retry_pending or self.peer.connected:
+            return False
+        self._retry_pending = True
+        self.loop.call_later(delay, self._retry_connect)
+        return True
 
     # zero-latency network: everything in flight is delivered at the next iteration
     def on_boundary(self):
         if self.phase == FAULT and self.loop is not None:
+            hold = self.loop.time() < getattr(self, "hold_until", 0.0)
             for a in self.settle_actions():
+                if hold and a[0] == "resume":
+                    continue  # back-pressure kept up on purpose (prelude_mode app_logout)
                 self.fire(a)
         super().on_boundary()
 
@@ -200,7 +212,11 @@ class WatchdogSim(PeerSim):
                     # first session: the peer hangs up shortly afterwards
                     self.prelude_state = "active1"
                     self.loop.call_later(self.cfg["prelude_after"], self.prelude_close)
-                elif self.prelude_state in ("none", "dropped", "reconnecting"):
+                elif self.prelude_state == "none" or (
+                        self.prelude_state in ("dropped", "reconnecting")
+                        and len(self.net.conns) > getattr(self, "prelude_nconns", 0)):
+                    # (the judged session starts on a NEW connection: the first one may pass through ACTIVE once
+                    # more while its own Logout is still being drained)
                     self.t0 = now
                     self.schedule_plan()
             if st <= ConnectionState.DISCONNECTED_BROKEN_CONN and self.t0 is not None:
@@ -212,6 +228,21 @@ class WatchdogSim(PeerSim):
             self.peer_connect()
 
     def prelude_close(self):
+        self.prelude_nconns = len(self.net.conns)
+        if self.peer.connected and self.cfg.get("prelude_mode") == "app_logout":
+            # the first session is ended by the application itself with a Logout, under back-pressure: the Logout's
+            # drain stays suspended for a while (watchdog ticks happen meanwhile), then everything is closed
+            self.prelude_state = "dropped"
+            self.fault("prelude_app_logout_under_backpressure")
+            for conn in self.net.conns:
+                for tr in conn.tr:
+                    if tr is not None and tr.label == "E" and not tr.paused and not tr._closing:
+                        tr.paused = True
+                        self.rec("pause", tr.label, conn.cid)
+                        tr.protocol.pause_writing()
+            self.hold_until = self.loop.time() + self.cfg.get("prelude_pause_s", 1.5)
+            self.spawn(self._app_logout(), "app-logout")
+            return
         if self.peer.connected:
             self.prelude_state = "dropped"
             self.fault("prelude_peer_drop")
@@ -220,7 +251,14 @@ class WatchdogSim(PeerSim):
             self.prelude_state = "dropped"
             if self.eut_role == "acceptor":
                 self.prelude_state = "reconnecting"
-                self.loop.call_later(self.cfg["prelude_reconnect"], self.peer_connect)
+                self.schedule_reconnect(self.cfg["prelude_reconnect"])
+
+    async def _app_logout(self):
+        try:
+            await self.eut.disconnect(ConnectionState.DISCONNECTED_WCONN_TODAY, logout_message="end of day")
+            self.rec("app_logout_done")
+        except Exception as e:
+            self.rec("app_logout_raised", type(e).__name__)
 
     def schedule_plan(self):
         for (dt, kind, arg) in self.cfg["plan"]:
